@@ -1,5 +1,6 @@
 (* Properties_C15.v — C15: destroy applies the stop policy; releases everything.  Theorems only. *)
-From Verif Require Import Lib WorldSpec LibSpec LibSpec2.
+From Verif Require Import Lib WorldSpec WorldSpec2 LibSpec LibSpec2 WaitSpec StopSpec TimeSpec.
+Import Lib.
 From Coq Require Import Lia.
 Local Open Scope Z_scope.
 
@@ -50,3 +51,15 @@ Print Assumptions C15_failed_start_state.
 
 Example C15_ex : h_status (rp_new 3) <> STATUS_IN_PROGRESS.
 Proof. cbn. unfold STATUS_NOT_STARTED, STATUS_IN_PROGRESS. lia. Qed.
+
+(* destroy returns a running handle's child only reaped or after a failed action: the status its
+   stop sequence obtains is that of the handle's own reaped child (every world, every stored
+   policy), and no operating-system wait it makes exceeds the time-out it was given *)
+Theorem C15_destroy_stop_status_is_reaped_childs : forall p w r p' w',
+  WorldSpec2.wf w -> h_status p = STATUS_IN_PROGRESS -> 0 < h_handle p -> h_handle p <> w_cur w ->
+  reproc_stop p (h_stop p) w = Ret (r, p') w' -> 0 <= r -> wait_exact p w r p' w'.
+Proof. intros p w r p' w'. apply reproc_stop_exact. Qed.
+Print Assumptions C15_destroy_stop_status_is_reaped_childs.
+Theorem C15_destroy_polls_bounded : forall p, emits (reproc_destroy p) pollok.
+Proof. exact ok_reproc_destroy. Qed.
+Print Assumptions C15_destroy_polls_bounded.
